@@ -242,6 +242,11 @@ def run(ctx):
     rep.check(okw, "D4-SCAN-ALL", where(gf), "chunk-walk", "every chunk of a region is examined (from ->chunks along ->next to NULL)",
               "the chunk walk of the free-chunk search no longer runs from region->chunks along ->next to the end of the list", line=scans[0].line)
 
+    # ---- D5: the chunk lists are only touched under the global mutex (shared with C08-D1) -----------
+    # (a chunk marked free before the lock is taken can be handed to another thread and then merged away)
+    import importlib
+    importlib.import_module("rules.c08").d1(db, rep, "D5-LOCKED-STATE")
+
     # ---- D3 ------------------------------------------------------------------
     cp = db.func("orc_compiler_compile_program", "orccompiler")
     rep.saw(cp)
